@@ -1,5 +1,7 @@
 package main
 
+import "strings"
+
 func extraGen(kind string, seed int64, prop string, idx int) (*Case, bool) {
 	switch kind {
 	case "graphexh":
@@ -19,6 +21,30 @@ func extraGen(kind string, seed int64, prop string, idx int) (*Case, bool) {
 	case "garbage":
 		r := caseRand(seed, kind, idx)
 		return &Case{Kind: kind, H: genGarbageHistory(r)}, true
+	case "tiny":
+		return &Case{Kind: kind, H: genTiny(idx, caseRand(seed, kind, idx))}, true
+	case "tinysamp":
+		r := caseRand(seed, kind, idx)
+		return &Case{Kind: kind, H: genTiny(r.Intn(tinyTotal(tinyMaxLen)), r)}, true
+	case "tinyfault":
+		h := genTinyFault(idx, caseRand(seed, kind, idx))
+		if h == nil {
+			return nil, true
+		}
+		return &Case{Kind: kind, H: h}, true
+	case "tinyfaultsamp":
+		r := caseRand(seed, kind, idx)
+		h := genTinyFault(r.Intn(tinyFaultTotal()), r)
+		if h == nil {
+			return nil, true
+		}
+		return &Case{Kind: kind, H: h}, true
+	case "difftiny:c06", "difftiny:c16", "difftiny:c17":
+		r := caseRand(seed, kind, idx)
+		return &Case{Kind: kind, H: genTiny(idx, r), X: map[string]interface{}{"tseed": r.Int63n(1 << 40)}}, true
+	case "difftinysamp:c06", "difftinysamp:c16", "difftinysamp:c17":
+		r := caseRand(seed, kind, idx)
+		return &Case{Kind: kind, H: genTiny(r.Intn(tinyTotal(tinyMaxLen)), r), X: map[string]interface{}{"tseed": r.Int63n(1 << 40)}}, true
 	case "smallsamp":
 		r := caseRand(seed, kind, idx)
 		j := r.Intn(smallTotal())
@@ -33,6 +59,12 @@ func extraCheck(prop string, c *Case, trace bool) (*CaseResult, bool) {
 		return checkGraphCase(c.G), true
 	case c.Kind == "garbage":
 		return checkGarbage(c, trace), true
+	case strings.HasPrefix(c.Kind, "difftiny") && strings.HasSuffix(c.Kind, ":c06"):
+		return checkC06(c, trace), true
+	case strings.HasPrefix(c.Kind, "difftiny") && strings.HasSuffix(c.Kind, ":c16"):
+		return checkC16(c, trace), true
+	case strings.HasPrefix(c.Kind, "difftiny") && strings.HasSuffix(c.Kind, ":c17"):
+		return checkC17(c, trace), true
 	case c.Kind == "diff:c06":
 		return checkC06(c, trace), true
 	case c.Kind == "diff:c15":
